@@ -21,10 +21,12 @@ pub open spec fn sp_wf(m: SparseBinaryMatrix) -> bool {
     &&& m.width < 65536 && m.height < 16777216 && m.num_dense_columns <= m.width
     &&& m.dense_elements@.len() == m.height as int * rww(m.num_dense_columns as int)
     &&& m.sparse_elements@.len() == m.height as int
-    &&& forall |r: int| 0 <= r < m.height ==> sv_wf(#[trigger] m.sparse_elements@[r])
+    &&& forall |r: int| 0 <= r < m.height ==> sv_wf(#[trigger] m.sparse_elements@[r]) && sv_below(m.sparse_elements@[r], m.width as int)
     &&& perm_ok_u32(m.logical_row_to_physical@, m.physical_row_to_logical@, m.height as int)
     &&& perm_ok_u16(m.logical_col_to_physical@, m.physical_col_to_logical@, m.width as int)
 }
+// every stored key (physical column) is a column of the matrix
+pub open spec fn sv_below(v: SparseBinaryVec, w: int) -> bool { forall |k: u16| sv_has(v, k) ==> (k as int) < w }
 pub open spec fn is_dense_col(m: SparseBinaryMatrix, j: int) -> bool { m.width - j <= m.num_dense_columns }
 // THE ABSTRACTION: logical cell (i, j)
 pub open spec fn sp_cell(m: SparseBinaryMatrix, i: int, j: int) -> bool {
@@ -70,6 +72,74 @@ pub proof fn lemma_new_all_zero(r: SparseBinaryMatrix)
             let v = r.sparse_elements@[pi];
             assert(!v.elements@.contains(r.logical_col_to_physical@[j]));
         }
+    }
+}
+// number of set cells of logical row i in logical columns [a, b)
+pub open spec fn sp_cnt(m: SparseBinaryMatrix, i: int, a: int, b: int) -> int
+    decreases b - a,
+{ if b <= a { 0 } else { sp_cnt(m, i, a, b - 1) + (if sp_cell(m, i, b - 1) { 1int } else { 0int }) } }
+// what the loop of count_ones computes: keys[0..n) whose logical column lies in [a, b)
+pub open spec fn key_cnt(keys: Seq<u16>, p2l: Seq<u16>, n: int, a: int, b: int) -> int
+    decreases n,
+{ if n <= 0 { 0 } else { key_cnt(keys, p2l, n - 1, a, b) + (if a <= p2l[keys[n - 1] as int] as int && (p2l[keys[n - 1] as int] as int) < b { 1int } else { 0int }) } }
+// logical columns in [a, b) whose physical column is among keys[0..n)
+pub open spec fn col_cnt(keys: Seq<u16>, l2p: Seq<u16>, n: int, a: int, b: int) -> int
+    decreases b - a,
+{ if b <= a { 0 } else { col_cnt(keys, l2p, n, a, b - 1) + (if keys.subrange(0, n).contains(l2p[b - 1]) { 1int } else { 0int }) } }
+pub proof fn lemma_col_cnt_step(keys: Seq<u16>, l2p: Seq<u16>, p2l: Seq<u16>, w: int, n: int, a: int, b: int)
+    requires perm_ok_u16(l2p, p2l, w), 0 <= a <= b <= w, 0 <= n < keys.len(), (keys[n] as int) < w,
+             forall |x: int, y: int| 0 <= x < y < keys.len() ==> keys[x] < keys[y],
+    ensures col_cnt(keys, l2p, n + 1, a, b) == col_cnt(keys, l2p, n, a, b) + (if a <= p2l[keys[n] as int] as int && (p2l[keys[n] as int] as int) < b { 1int } else { 0int }),
+    decreases b - a,
+{
+    if a < b {
+        lemma_col_cnt_step(keys, l2p, p2l, w, n, a, b - 1);
+        let c = l2p[b - 1];
+        let s0 = keys.subrange(0, n); let s1 = keys.subrange(0, n + 1);
+        assert(s1.contains(c) == (s0.contains(c) || c == keys[n])) by {
+            if s0.contains(c) { let q = choose |q: int| 0 <= q < s0.len() && s0[q] == c; assert(s1[q] == c); }
+            if c == keys[n] { assert(s1[n] == c); }
+            if s1.contains(c) { let q = choose |q: int| 0 <= q < s1.len() && s1[q] == c; if q < n { assert(s0[q] == c); } }
+        }
+        assert(!(s0.contains(c) && c == keys[n])) by {
+            if s0.contains(c) && c == keys[n] { let q = choose |q: int| 0 <= q < s0.len() && s0[q] == c; assert(keys[q] < keys[n]); }
+        }
+        // c == keys[n]  <==>  b - 1 == p2l[keys[n]]
+        assert((c == keys[n]) == (p2l[keys[n] as int] as int == b - 1)) by {
+            assert(p2l[l2p[b - 1] as int] as int == b - 1);
+            if p2l[keys[n] as int] as int == b - 1 { assert(l2p[p2l[keys[n] as int] as int] as int == keys[n] as int); }
+        }
+    }
+}
+pub proof fn lemma_key_col_cnt(keys: Seq<u16>, l2p: Seq<u16>, p2l: Seq<u16>, w: int, n: int, a: int, b: int)
+    requires perm_ok_u16(l2p, p2l, w), 0 <= a <= b <= w, 0 <= n <= keys.len(), forall |q: int| 0 <= q < keys.len() ==> (#[trigger] keys[q] as int) < w,
+             forall |x: int, y: int| 0 <= x < y < keys.len() ==> keys[x] < keys[y],
+    ensures key_cnt(keys, p2l, n, a, b) == col_cnt(keys, l2p, n, a, b), 0 <= key_cnt(keys, p2l, n, a, b) <= n,
+    decreases n,
+{
+    if n > 0 {
+        lemma_key_col_cnt(keys, l2p, p2l, w, n - 1, a, b);
+        lemma_col_cnt_step(keys, l2p, p2l, w, n - 1, a, b);
+    } else {
+        lemma_col_cnt_zero(keys, l2p, a, b);
+    }
+}
+pub proof fn lemma_col_cnt_zero(keys: Seq<u16>, l2p: Seq<u16>, a: int, b: int)
+    ensures col_cnt(keys, l2p, 0, a, b) == 0,
+    decreases b - a,
+{
+    if a < b { lemma_col_cnt_zero(keys, l2p, a, b - 1); assert(keys.subrange(0, 0).len() == 0); }
+}
+// with all keys: col_cnt is sp_cnt (for a range inside the sparse part)
+pub proof fn lemma_col_cnt_is_sp_cnt(m: SparseBinaryMatrix, i: int, a: int, b: int)
+    requires sp_wf(m), 0 <= i < m.height, 0 <= a <= b, b <= m.width - m.num_dense_columns,
+    ensures ({ let v = m.sparse_elements@[m.logical_row_to_physical@[i] as int]; col_cnt(v.elements@, m.logical_col_to_physical@, v.elements@.len() as int, a, b) == sp_cnt(m, i, a, b) }),
+    decreases b - a,
+{
+    if a < b {
+        lemma_col_cnt_is_sp_cnt(m, i, a, b - 1);
+        let v = m.sparse_elements@[m.logical_row_to_physical@[i] as int];
+        assert(v.elements@.subrange(0, v.elements@.len() as int) =~= v.elements@);
     }
 }
 pub open spec fn swap_idx(a: int, i: int, j: int) -> int { if a == i { j } else if a == j { i } else { a } }
@@ -228,6 +298,19 @@ impl SparseBinaryMatrix {
                    r' assert((pad(nd) + c) / 64 < rww(nd)) by { if (pad(nd) + c) / 64 >= rww(nd) { lemma_fundamental_div_mod(pad(nd) + c, 64); assert(64 * ((pad(nd) + c) / 64) >= 64 * rww(nd)) by (nonlinear_arith) requires (pad(nd) + c) / 64 >= rww(nd); } }'
                    r' lemma_div_pos_is_pos(pad(nd) + c, 64); let k = (pad(nd) + c) / 64; lemma_basic_div(pad(nd), 64); assert(first_word as int == physical_row as int * rww(nd));'
                    r' let sl = self.dense_elements@.subrange(first_word as int, last_word as int); assert(k < rww(nd)); assert(sl[k] == self.dense_elements@[first_word as int + k]); assert(verif_r.elements@[k] == sl[k]); } }\n verif_r\n}', 'bind-tail-expression')])
+    u.fn('src/sparse_matrix.rs', 'count_ones', impl=IMPLT, ret='r', rules=['D11'],
+         requires=['sp_wf(*self)', '(row as int) < self.height', 'start_col <= end_col', 'end_col as int <= self.width - self.num_dense_columns'],
+         ensures=['r as int == sp_cnt(*self, row as int, start_col as int, end_col as int)'],
+         resubst=[(r'unimplemented!\(\s*"[^"]*"\s*\);', 'return verif_panic();', 'A3-unimplemented-is-refusal'),
+                  (r'let mut ones = 0;', 'let mut ones: usize = 0;', 'type-annotation')],
+         loops={0: {'spec': ('invariant sp_wf(*self), (row as int) < self.height, start_col <= end_col, end_col as int <= self.width - self.num_dense_columns, physical_row as int == self.logical_row_to_physical@[row as int] as int,'
+                             ' ones as int == key_cnt(self.sparse_elements@[physical_row as int].elements@, self.physical_col_to_logical@, verif_q as int, start_col as int, end_col as int), ones <= verif_q,'),
+                    'body_top': ('proof { let v = self.sparse_elements@[physical_row as int]; assert(sv_has(v, v.elements@[verif_q as int])); assert((v.elements@[verif_q as int] as int) < self.width); }')}},
+         hint_inserts=[('return ones;', 'before',
+                        'proof { let v = self.sparse_elements@[physical_row as int];'
+                        ' assert forall |q: int| 0 <= q < v.elements@.len() implies (#[trigger] v.elements@[q] as int) < self.width by { assert(sv_has(v, v.elements@[q])); }'
+                        ' lemma_key_col_cnt(v.elements@, self.logical_col_to_physical@, self.physical_col_to_logical@, self.width as int, v.elements@.len() as int, start_col as int, end_col as int);'
+                        ' lemma_col_cnt_is_sp_cnt(*self, row as int, start_col as int, end_col as int); }')])
     u.fn('src/sparse_matrix.rs', 'swap_rows', impl=IMPLT, ret='r',
          requires=['sp_wf(*old(self))', '(i as int) < old(self).height', '(j as int) < old(self).height'],
          ensures=['sp_wf(*final(self))', 'sp_frame(*old(self), *final(self))',
